@@ -247,8 +247,8 @@ class MSShift(AtomsProperty):
     @staticmethod
     @_has_ms_check
     def extract(s, ref, grad, save_array)-> np.ndarray:
-        # make sure we have some references set!
-        if not ref:
+        # make sure we have some references set! (0.0 is a reference)
+        if ref is None or (isinstance(ref, (dict, list)) and len(ref) == 0):
             raise ValueError("No reference provided for chemical shifts")
 
 
@@ -393,7 +393,7 @@ class MSIsotropy(AtomsProperty):
     @_has_ms_check
     def extract(s, ref, grad, save_array) -> np.ndarray:
 
-        if ref:
+        if not (ref is None or (isinstance(ref, (dict, list)) and len(ref) == 0)):
             # the user wants to use the chemical shift
             ms_iso =  MSShift.extract(s, ref, grad, save_array)
         else:
